@@ -576,8 +576,10 @@ def run_replay(desc, contract, clause_name=None):
     else:
         import inspect
 
-        accepted = set(inspect.signature(getattr(mod, rest)).parameters)
-        call = lambda: getattr(mod, rest)(**{k: v for k, v in args.items() if k in accepted})
+        sig = inspect.signature(getattr(mod, rest)).parameters
+        star = [k for k, prm in sig.items() if prm.kind == inspect.Parameter.VAR_POSITIONAL]
+        accepted = set(sig) - set(star)
+        call = lambda: getattr(mod, rest)(*[x for k in star for x in args.get(k, ())], **{k: v for k, v in args.items() if k in accepted})  # `*args` of the real function are passed positionally
     exc = None
     result = None
     with np.errstate(all="ignore"):
